@@ -450,8 +450,19 @@ pub enum StepKind {
     Nop,
 }
 
+pub struct Dir {
+    pub tmp: Option<tempfile::TempDir>,
+    pub p: PathBuf,
+}
+
+impl Dir {
+    pub fn path(&self) -> &Path {
+        &self.p
+    }
+}
+
 pub struct World {
-    pub dir: tempfile::TempDir,
+    pub dir: Dir,
     pub store: Option<Store>,
     pub n_extra: usize,
     /// distinct events ever submitted (by id)
@@ -477,7 +488,13 @@ pub fn extra_names(n: usize) -> Vec<&'static str> {
 
 impl World {
     pub fn new(n_extra: usize) -> Result<World, Fail> {
-        let dir = tempfile::Builder::new().prefix("w").tempdir_in(scratch_base()).map_err(|e| Fail::new("harness:tempdir", e.to_string()))?;
+        let tmp = tempfile::Builder::new().prefix("w").tempdir_in(scratch_base()).map_err(|e| Fail::new("harness:tempdir", e.to_string()))?;
+        let p = tmp.path().to_path_buf();
+        World::at(Dir { tmp: Some(tmp), p }, n_extra)
+    }
+
+    /// Opens (or creates) a store in the given directory.
+    pub fn at(dir: Dir, n_extra: usize) -> Result<World, Fail> {
         let store = guard("Store::new", || Store::new(dir.path(), extra_names(n_extra)))?.map_err(|e| Fail::new(format!("open-failed:{}", crate::props::c01::err_class(&e)), e.to_string()))?;
         Ok(World {
             dir,
@@ -1122,7 +1139,7 @@ impl Drop for World {
     }
 }
 
-#[derive(Clone, Debug)]
+#[derive(Clone, Debug, Serialize, Deserialize, PartialEq)]
 pub enum Concrete {
     Store(usize),
     Remove(String),
